@@ -163,7 +163,7 @@ impl Property for C09 {
         ]
     }
     fn pbt(&self, tier: Tier) -> PbtCfg {
-        PbtCfg { cases: tier.pick(100_000, 1_000_000), max_len: tier.pick(2000, 12000), shrink_ms: 120_000 }
+        PbtCfg { cases: tier.pick(100_000, 600_000), max_len: tier.pick(2000, 12000), shrink_ms: 120_000 }
     }
     fn required_labels(&self) -> Vec<&'static str> {
         vec!["stale_dup_slice", "quiescence_checked", "prompt_drain", "unrel_fragment_expired", "unrel_bound_checked"]
